@@ -95,7 +95,7 @@ class SuciProc(Stream):
                   "forallb (fun o => plmn_is o mcc mnc) plmns && "
                   "match plain with [] => true | _ => "
                   "match mobile_identity_of (if isreg then REGISTRATION_REQUEST else DEREGISTRATION_REQUEST_UE_ORIG) plain with "
-                  "Some mi => suci_is mi mcc mnc msin | None => false end end)")
+                  "Some mi => suci_strict mi mcc mnc msin | None => false end end)")
 
     def generate(self, rng, tier):
         cs = []
